@@ -70,6 +70,14 @@ def main(tier, replay=None):
                     if kind == "cv" and happened:
                         continue                  # a cv wait has no predicate: "already happened" is the same case as not happened
                     cases.append((exe, lang, entry, cls, happened, exp))
+    if replay and replay.endswith(".sched"):
+        # a schedule of the schedule-controlled part (below)
+        import mulib
+        rexe, renv = replay_target(replay, "h_mu")
+        res = mulib.run_harness_env(rexe, ["replay", replay, REPLAYS], dict(os.environ, VERIF_PROP="C15", **renv))
+        for v in res["viols"]:
+            run.violation("%s|%s|replay" % (v[0], v[1]), replay, v[5])
+        return run.finish()
     if replay:
         cases = [c for c in cases if "%s:%s:%s:%d" % (c[1], c[2], c[3], c[4]) == open(replay).read().strip()]
     reps = 1 if tier == "quick" else 5
@@ -91,11 +99,21 @@ def main(tier, replay=None):
                     else:
                         run.note("one-off timing outlier, not repeated: %s %s %s -> %s" % (args[1], args[2], args[3], got))
     run.cov["evaluations"] = n
+    if not replay:
+        # The same statement under schedule control: whether a timed call crashes, hangs or times out early can depend on WHERE its deadline
+        # falls relative to a concurrent notify / signal / unlock (a few instructions wide), which the real kernel cannot aim at.  Generated
+        # programs (tools/genprog.py) whose waits carry past, near and no deadlines run on the real note.c / wait.c / sem_wait.c / cv.c /
+        # mu_wait.c under the deterministic runtime, the clock ticking at every possible point; a touched dead record (O-mem) is the crash.
+        import l2lib, mulib
+        l2lib.generated_notes(run, "C15", {"O-crash", "O-mem", "O-ret", "O-prog"})
+        mulib.prepare_spec()
+        mulib.generated_phase(run, build("h_mu"), "C15", tier, dict(os.environ, VERIF_PROP="C15"))
     run.cov["distinct_nontrivial"] = len([c for c in cases if c[3] not in ("future",)])
     run.cov["rule"] = ("a case = (build C/C++, timed entry point, deadline class, event already happened or not), run in its own process on the real kernel with a watchdog; "
                        "allowed outcomes enumerated by TLC from Time.tla's Outcome table; non-trivial = a deadline other than now+d (zero, before the epoch, just passed, max-1, none)")
     run.cov["samples"] = [{"build": c[1], "entry": c[2], "deadline": c[3], "happened": c[4], "allowed": sorted(c[5])} for c in cases[:4] + cases[-2:]]
     run.cov["outcome_table_rows"] = len(tab)
     run.assumptions += ["the kernel and the real clock are not modelled: this check explores inputs on the real platform; 'promptly' = within 1 s, 'not early' = not before now+150 ms (2 ms slack)",
-                        "Time.tla contributes the oracle (outcome table), not an exploration of schedules"]
+                        "Time.tla contributes the oracle (outcome table), not an exploration of schedules; the schedule-controlled part (generated programs under the deterministic "
+                        "runtime, virtual clock 0..2 ticking at arbitrary points) samples schedules, it does not enumerate them"]
     return run.finish()
